@@ -153,7 +153,7 @@ theorem c16_walk_retention (timeAt : Nat → Option Int64) (oldTailH storeH : Na
     window -/
 theorem c16_walkDown_spec (timeAt : Nat → Option Int64) (oldTailH storeH : Nat) (e : Int64) (fuel h r : Nat)
     (hf : h < fuel) (hr : walkDown timeAt oldTailH storeH e fuel h = some r) :
-    r ≤ h ∧ (r ≤ oldTailH ∨ storeH < r ∨ ∃ t, timeAt (r - 1) = some t ∧ t < e) := by
+    r ≤ h ∧ (r ≤ oldTailH ∨ storeH + 1 < r ∨ ∃ t, timeAt (r - 1) = some t ∧ t < e) := by
   induction fuel generalizing h with
   | zero => omega
   | succ f ih =>
@@ -196,7 +196,7 @@ theorem c16_walkBoth_bounds (timeAt : Nat → Option Int64) (oldTailH storeH : N
     the configured block time. -/
 theorem c16_retention (timeAt : Nat → Option Int64) (oldTailH storeH : Nat) (e : Int64) (n r : Nat)
     (mono : ∀ a b ta tb, a ≤ b → timeAt a = some ta → timeAt b = some tb → ta ≤ tb)
-    (hn : n ≤ storeH)
+    (hn : n ≤ storeH + 1)
     (hr : walkBoth timeAt oldTailH storeH e n = some r) :
     ∀ k t, oldTailH ≤ k → k < r → timeAt k = some t → t < e := by
   unfold walkBoth at hr
